@@ -358,10 +358,11 @@ def check_line(run, case):
            ('exc', type(r[1]).__name__, None, None, str(r[1]))
            for r in (ra, rb)]
     full = dict(case, where=list(where) if where else None)
-    run.case(full, fired, fp=(kind, case['texts'], case['at'],
-                              bool(case.get('cold'))),
+    run.case(full, fired is True, fp=(kind, case['texts'], case['at'],
+                                      bool(case.get('cold'))),
              cls=['line-preemption', 'cold-engine' if case.get('cold')
-                  else 'warm-engine'])
+                  else 'warm-engine'] + (
+                 ['b-blocked-until-a-resumed'] if fired == 'blocked' else []))
     _compare(run, full, kind, [ta, tb], got,
              'cold-concurrent' if case.get('cold') else 'concurrent')
 
